@@ -625,11 +625,16 @@ impl AssetCategorizer {
         let mut dependable_value = None;
         let mut min_value = None;
         if let Some(last_output) = tx_proposal.get_outputs().last() {
-            dependable_value = Some(
-                tx_proposal
-                    .get_unused_ada()?
-                    .checked_add(&last_output.get_total_ada())?,
-            );
+            // what the last output can hold: everything the inputs bring minus the OTHER outputs; the fee is subtracted by the
+            // estimator itself (get_unused_ada() is already net of the stored fee: the fee was subtracted twice)
+            let others = tx_proposal
+                .get_total_ada_for_ouputs()?
+                .checked_sub(&last_output.get_total_ada())?;
+            let available = tx_proposal
+                .total_ada
+                .checked_sub(&others)
+                .unwrap_or(Coin::zero());
+            dependable_value = Some(std::cmp::max(available, last_output.get_total_ada()));
             min_value = Some(last_output.get_min_ada());
             tx_len -= CborCalculator::get_coin_size(&last_output.get_total_ada());
         }
